@@ -67,10 +67,10 @@ def transform_times(e, t, tr):
         import numpy as np
 
         if tr == "tshift":
-            return t + np.timedelta64(int(e.ct), "s")
+            return t + np.timedelta64(int(e.ct), "ns")
         return t
     if tr == "tshift":
-        c = alg.mul(pval(e.ct), 10**9)
+        c = pval(e.ct)  # nanoseconds
         return _derived(t.n, t, lambda p, i: (p[0], alg.add(p[1], c)), "M", "ns")
     return t
 
@@ -133,7 +133,7 @@ class Inv(Case):
         if tr == "shift":
             v["c"] = H * 5
         if tr == "tshift":
-            v["ct"] = 86400 * 3 + 7
+            v["ct"] = (86400 * 3 + 7) * 10**9 + 500000000
         return v
 
 
@@ -215,7 +215,7 @@ class InvRate(Inv):
         e = Env()
         e.n = mk.length("n")
         e.x = mk.series("x", e.n)
-        e.t = mk.times("t", e.n)
+        e.t = mk.times_ns("t", e.n)
         e.thr = mk.real("thr")
         mk.assume(alg.ge(pval(e.thr), 0))
         self.common(mk, e)
@@ -233,7 +233,7 @@ class InvRate(Inv):
 
     def grid(self, tier, rng):
         for xs in series_grid(4):
-            v = self.tvalues({"n": len(xs), "x": list(xs), "t": [0, 1, 3, 3600][: len(xs)], "thr": H})
+            v = self.tvalues({"n": len(xs), "x": list(xs), "t": [0, 1500000000, 3000000000, 3600 * 10**9][: len(xs)], "thr": H})
             if self.params["tr"] == "local":
                 for j in range(len(xs)):
                     for nv, nn in ((5, False), (0, True)):
@@ -250,16 +250,16 @@ class InvFlat(Inv):
         e = Env()
         e.n = mk.length("n")
         e.x = mk.series("x", e.n)
-        e.t = mk.times("t", e.n, increasing=False)
+        e.t = mk.times_ns("t", e.n, min_step_ns=None)
         e.D = mk.integer("D")
         mk.assume(alg.ge(pval(e.D), 1))
         n, D = e.n, pval(e.D)
         if mk.mode == "sym":
-            fs = e.t.fsec
-            mk.fact("regular-sampling", lambda i: alg.implies(alg.and_(alg.le(0, i), alg.lt(alg.add(i, 1), n)), alg.eq(alg.sub(fs(alg.lift(alg.add(i, 1))), fs(alg.lift(i))), D)))
+            fs = e.t.fns
+            mk.fact("regular-sampling", lambda i: alg.implies(alg.and_(alg.le(0, i), alg.lt(alg.add(i, 1), n)), alg.eq(alg.sub(fs(alg.lift(alg.add(i, 1))), fs(alg.lift(i))), alg.mul(D, 10**9))))
         elif mk.mode == "conc":
-            secs = e.t.secs
-            mk.assume(all(b - a == D for a, b in zip(secs, secs[1:])))
+            ns = e.t.ns
+            mk.assume(all(b - a == D * 10**9 for a, b in zip(ns, ns[1:])))
         e.st, e.ft = mk.integer("st"), mk.integer("ft")
         e.tol = mk.real("tol")
         mk.assume(alg.ge(pval(e.st), 0))
@@ -286,7 +286,7 @@ class InvFlat(Inv):
 
     def grid(self, tier, rng):
         for xs in series_grid(5, alphabet=(0, H / 2, 1, None)):
-            v = self.tvalues({"n": len(xs), "x": list(xs), "t": [1000 + 60 * i for i in range(len(xs))], "D": 60, "st": 60, "ft": 130, "tol": H})
+            v = self.tvalues({"n": len(xs), "x": list(xs), "t": [(1000 + 60 * i) * 10**9 + 250000000 for i in range(len(xs))], "D": 60, "st": 60, "ft": 130, "tol": H})
             if self.params["tr"] == "local":
                 for j in range(len(xs)):
                     yield dict(v, j=j, newval=5, newnan=False)
@@ -303,7 +303,7 @@ class InvAttenuated(Inv):
         e = Env()
         e.n = mk.length("n")
         e.x = mk.series("x", e.n)
-        e.t = mk.times("t", e.n)
+        e.t = mk.times_ns("t", e.n)
         e.sus, e.fail = mk.real("sus"), mk.real("fail")
         if self.params["window"]:
             e.period = mk.integer("period")
@@ -337,7 +337,7 @@ class InvAttenuated(Inv):
 
     def grid(self, tier, rng):
         for xs in series_grid(4, alphabet=(0, 1, 3, None)):
-            v = self.tvalues({"n": len(xs), "x": list(xs), "t": [0, 60, 120, 180][: len(xs)], "sus": 1, "fail": H, "period": 120, "min_obs": 1})
+            v = self.tvalues({"n": len(xs), "x": list(xs), "t": [0, 60500000000, 120 * 10**9, 180 * 10**9][: len(xs)], "sus": 1, "fail": H, "period": 120, "min_obs": 1})
             if self.params["tr"] == "local":
                 for j in range(len(xs)):
                     yield dict(v, j=j, newval=5, newnan=False)
@@ -389,7 +389,7 @@ class InvSpeed(Inv):
         e.n = mk.length("n")
         e.lon = mk.series("lon", e.n)
         e.lat = mk.series("lat", e.n)
-        e.t = mk.times("t", e.n)
+        e.t = mk.times_ns("t", e.n)
         e.sus, e.fail = mk.real("sus"), mk.real("fail")
         self.common(mk, e)
         if self.params["tr"] == "local":
@@ -417,7 +417,7 @@ class InvSpeed(Inv):
         pts = [(0, 0), (10, 20), (10, 20.5), (None, 5), (None, None)]
         for n in range(0, 4):
             for ps in itertools.product(pts, repeat=n):
-                v = self.tvalues({"n": n, "lon": [p[0] for p in ps], "lat": [p[1] for p in ps], "t": [0, 10, 3600][:n], "sus": 1, "fail": 100})
+                v = self.tvalues({"n": n, "lon": [p[0] for p in ps], "lat": [p[1] for p in ps], "t": [0, 10500000000, 3600 * 10**9][:n], "sus": 1, "fail": 100})
                 if self.params["tr"] == "local":
                     for j in range(n):
                         yield dict(v, j=j, newval=11, newnan=False, newlat=21, newlatnan=False)
@@ -537,7 +537,7 @@ class InvValid(Inv):
             import numpy as np
 
             x2 = e.x.copy()
-            c = np.timedelta64(int(e.ct), "s") if tr == "tshift" else np.timedelta64(0, "s")
+            c = np.timedelta64(int(e.ct), "ns") if tr == "tshift" else np.timedelta64(0, "ns")
             if tr == "local":
                 x2[int(e.j)] = np.datetime64("NaT") if e.newnan else np.datetime64(int(e.newval) * 10**9, "ns")
             x2 = x2 + c
@@ -549,7 +549,7 @@ class InvValid(Inv):
                 j = pval(e.j)
                 nv, nn = alg.mul(alg.trunc(pval(e.newval)), 10**9), e.newnan
                 x2 = _derived(e.n, e.x, lambda p, i: (alg.ite(alg.eq(i, j), nn, p[0]), alg.ite(alg.eq(i, j), nv, p[1])), "M", "ns")
-            c = alg.mul(pval(e.ct), 10**9) if tr == "tshift" else 0
+            c = pval(e.ct) if tr == "tshift" else 0  # nanoseconds
             lo2 = SNum(alg.add(e.lo.val, c), False, "M", "ns")
             hi2 = SNum(alg.add(e.hi.val, c), False, "M", "ns")
         return Pair(mod.valid_range_test(e.x, (e.lo, e.hi)), mod.valid_range_test(x2, (lo2, hi2)))
